@@ -244,8 +244,13 @@ def run_property(prop, tier, seed, timeout, args, t_start):
     known = load_known()
     open_known = [k for k in known if k.get("status") == "open" and k.get("property") == prop]
     violations, known_hits = [], []
+    fals_cache = {}
+    seen_bases = set()
     for name, g, status in failed:
         bn = base_name(name)
+        if bn in seen_bases:
+            continue        # other type variants of an already reported obligation
+        seen_bases.add(bn)
         q = g.get("function") or g["meta"].get("function")
         info = {"obligation": name, "status": status,
                 "solver": [{k: r.get(k) for k in ("status", "solver", "time", "detail", "cvc5")} for r in g["instances"]]}
@@ -273,8 +278,10 @@ def run_property(prop, tier, seed, timeout, args, t_start):
             want = m_.group(1) if m_ else None
             if want and want.startswith("no-raise["):
                 want = want.split("@")[0]
-            out = harness("falsify", {"qualname": q, "scope": c.scope, "seed": seed, "clause": want,
-                                      "budget": 3000 if tier == "quick" else 30000})
+            if (q, want) not in fals_cache:
+                fals_cache[(q, want)] = harness("falsify", {"qualname": q, "scope": c.scope, "seed": seed, "clause": want,
+                                                            "budget": 1500 if tier == "quick" else 30000})
+            out = fals_cache[(q, want)]
             info["falsifier"] = {k: out.get(k) for k in ("found", "tried", "note", "error")}
             if out.get("found"):
                 recipes, found, rep = out["args"], True, out["report"]
